@@ -20,8 +20,8 @@ from .. import core, build_repo
 ID = "C35"
 LEVEL = "other"
 RULE = ("cases = clang-14 text dumps of generated C and C++ programs (globals, structs, enums, typedefs, functions with parameters, "
-        "locals, arrays, pointers, calls, member access, casts, sizeof, if/else, while, do, for, switch, goto; C++: classes with "
-        "fields, constructors and methods, namespaces, references, new/delete, casts, bool/nullptr), every entity with a unique "
+        "locals, arrays, pointers, calls, member access, casts, sizeof, if/else, while, do, for, switch; C++: classes with "
+        "fields (also declared after the methods that use them), constructors and methods, namespaces, references, new/delete, casts, bool), every entity with a unique "
         "name, in a safe layout (one statement per line) and a free layout (line breaks inside headers and expressions); plus "
         "generated splitter lines, declaration-map event sequences and location trees; non-trivial = the program has a variable "
         "use that is linked (dump cases), the line has a grouped field (split), a use precedes its declaration (data), a relative "
@@ -1013,7 +1013,20 @@ def mutate_dump(r, dump):
 # ---------------------------------------------------------------------------------------------------------
 # the check
 # ---------------------------------------------------------------------------------------------------------
-KNOWN_KEYS = ("loc-line-inherited", "param-of-redeclared-function", "use-inside-sizeof", "declarator-dropped", "member-nonodr-flag")
+KNOWN_KEYS = ("loc-line-inherited", "param-of-redeclared-function", "use-inside-sizeof", "declarator-dropped", "member-nonodr-flag",
+              "crash-interleaved-diagnostics")
+
+
+def interleave(r, dump, text="1 warning generated.\n"):
+    """what `clang … 2>&1` does to the AST text: a stderr line lands in the middle of a dump line"""
+    lines = dump.split("\n")
+    cand = [i for i, l in enumerate(lines) if "-" in l and len(l) > 12]
+    if not cand:
+        return dump
+    i = r.choice(cand)
+    k = r.randrange(1, min(len(lines[i]) - 1, 12))       # inside the indentation / the node type
+    lines[i] = lines[i][:k] + text + lines[i][k:]
+    return "\n".join(lines)
 
 
 def load_witnesses():
@@ -1050,6 +1063,36 @@ def evaluate(c, line):
     return viol, stats, "ok"
 
 
+def probe(exe):
+    """import the corpus witnesses with the real importer; which of the proposed repairs does the tree already have?"""
+    wit = load_witnesses()
+    wcases = [dict(lang=w["lang"], text=w["text"], layout="witness", stress=True, features=[], wkey=w["key"], name=w["name"]) for w in wit]
+    clang_all(wcases)
+    badw = [c["name"] for c in wcases if not c.get("clang_ok")]
+    wcases = [c for c in wcases if c.get("clang_ok")]
+    wout = run_robust(exe, [dump_op(c, "cur") for c in wcases]) if wcases else []
+    sizeof_clean = member_clean = False
+    for c, o in zip(wcases, wout):
+        toks = parse_dump_line(o)
+        if toks is None:
+            continue
+        if c["wkey"] == "use-inside-sizeof":
+            ins = [t for t in toks if ENTITY.match(t["str"]) and in_sizeof(toks, t["idx"])]
+            sizeof_clean = bool(ins) and all(t["varDef"] is not None and t["varId"] != 0 for t in ins)
+        if c["wkey"] == "member-nonodr-flag":
+            # the repaired MemberExpr branch spells the member by its name (two tokens `fm1`: declaration and use)
+            member_clean = not any(re.match(r"^0x[0-9a-f]+$", t["str"]) for t in toks) and sum(1 for t in toks if t["str"] == "fm1") == 2
+    # proposed/C35-children-bounds.diff: the captured interleaved output ends in getChild's InternalError instead of a crash
+    bounds_clean = False
+    ipath = os.path.join(core.VERIF, "corpus", "C35", "interleaved.json")
+    if os.path.exists(ipath):
+        w = json.load(open(ipath))
+        o = run_robust(exe, [dump_op(dict(lang=w["lang"], dump=w["dump"]), "cur")])[0]
+        bounds_clean = o.startswith("throw getChild")
+    mode = "+".join((["sf"] if sizeof_clean else []) + (["mf"] if member_clean else []) + (["bc"] if bounds_clean else [])) or "cur"
+    return mode, wcases, wout, badw, sizeof_clean, member_clean
+
+
 def run(ctx, res):
     import time
     rng = ctx.rng
@@ -1062,27 +1105,10 @@ def run(ctx, res):
     T["prove+build"] = round(time.time() - t0, 1)
     res.extra["phase_seconds"] = T
 
-    # ---- known-finding witnesses first; they also tell which behaviour of `setTypes` the tree has ----------------------------
-    wit = load_witnesses()
-    wcases = [dict(lang=w["lang"], text=w["text"], layout="witness", stress=True, features=[], wkey=w["key"], name=w["name"]) for w in wit]
-    clang_all(wcases)
-    badw = [c["name"] for c in wcases if not c.get("clang_ok")]
+    # ---- known-finding witnesses first; they also tell which of the proposed repairs the tree already has -----------------------
+    mode, wcases, wout, badw, sizeof_clean, member_clean = probe(exe)
     res.oblig("corpus:witnesses-accepted-by-clang", not badw, "machinery", "clang-14 rejects the witness programs %s" % badw)
-    wcases = [c for c in wcases if c.get("clang_ok")]
-    wout = run_robust(exe, [dump_op(c, "cur") for c in wcases]) if wcases else []
     seen_keys = {}
-    sizeof_clean = member_clean = False
-    for c, o in zip(wcases, wout):          # which of the proposed repairs does the tree already have?
-        toks = parse_dump_line(o)
-        if toks is None:
-            continue
-        if c["wkey"] == "use-inside-sizeof":
-            ins = [t for t in toks if ENTITY.match(t["str"]) and in_sizeof(toks, t["idx"])]
-            sizeof_clean = bool(ins) and all(t["varDef"] is not None and t["varId"] != 0 for t in ins)
-        if c["wkey"] == "member-nonodr-flag":
-            # the repaired MemberExpr branch spells the member by its name (two tokens `fm1`: declaration and use)
-            member_clean = not any(re.match(r"^0x[0-9a-f]+$", t["str"]) for t in toks) and sum(1 for t in toks if t["str"] == "fm1") == 2
-    mode = "+".join((["sf"] if sizeof_clean else []) + (["mf"] if member_clean else [])) or "cur"
     for c, o in zip(wcases, wout):
         c["mode"] = mode
         for u in (c.get("truth") or {}).get("uses", []):
@@ -1098,7 +1124,9 @@ def run(ctx, res):
             if k != c["wkey"] and k not in KNOWN_KEYS:
                 res.violation("witness %s: %s" % (c["name"], t), dict(kind="program", lang=c["lang"], text=c["text"], key=k), concrete=True, key=k)
     res.extra["behaviour_of_the_tree"] = dict(setTypes_sizeof="repaired" if sizeof_clean else "current (clears links inside sizeof)",
-                                              MemberExpr_flag="repaired" if member_clean else "current (last two fields)")
+                                              MemberExpr_flag="repaired" if member_clean else "current (last two fields)",
+                                              children_bounds="repaired (getChild)" if "bc" in mode else "current (unchecked children[N])",
+                                              model_variant=mode)
 
     # ---- programs ------------------------------------------------------------------------------------------------------
     plan = [("c", "safe", False, 40 if thorough else 8), ("c", "free", False, 40 if thorough else 6), ("cpp", "safe", False, 40 if thorough else 7),
@@ -1178,6 +1206,27 @@ def run(ctx, res):
     res.oblig("hypotheses:use_links_referenced-applies-to-real-dumps", hyp["dumps"] > 0 and hyp["all_hypotheses"] * 10 >= hyp["dumps"] * 9 and
               hyp["setters_only"] == hyp["dumps"], "hypotheses",
               "" if hyp["dumps"] else "no dump was imported by the model: %s" % eo[:2])
+
+    # ---- F35g: diagnostics interleaved into the dump (`2>&1` in CppCheck::checkClang): a crash is the finding ------------------
+    ipath = os.path.join(core.VERIF, "corpus", "C35", "interleaved.json")
+    icases = []
+    if os.path.exists(ipath):
+        w = json.load(open(ipath))
+        icases.append(dict(lang=w["lang"], text=w["text"], dump=w["dump"], name=w["name"]))
+    for c in rng.sample(cases, min(len(cases), 60 if thorough else 10)):
+        icases.append(dict(lang=c["lang"], text=c["text"], dump=interleave(rng, c["dump"]), name="synthetic"))
+    iops = [dump_op(c, mode) for c in icases]
+    ii = run_robust(exe, iops)
+    rc, im_, err = core.run_lines(drv, [], iops, timeout=900)
+    for c, a, b in zip(icases, ii, im_ if len(im_) == len(iops) else [""] * len(iops)):
+        res.count("interleaved:" + ("crash" if a.startswith("CRASH") else a.split(" ")[0] + " " + " ".join(a.split(" ")[1:2]) if not a.startswith("ok") else "ok"))
+        if a.startswith("CRASH"):
+            # the model must have seen the out-of-range access coming, otherwise it is a crash of another kind
+            key = "crash-interleaved-diagnostics" if b.startswith("ub ") else "crash"
+            res.violation("%s: the importer crashes on clang output with a diagnostic line written into the AST text (%s); model: %s" %
+                          (c["name"], a[:40], b[:80]), dict(kind="dump", lang=c["lang"], text=c["text"], dump=c["dump"], key=key), concrete=True, key=key)
+        elif b and not b.startswith(("ub ", "unsupported")) and a != b:
+            res.oblig("correspondence:import-interleaved", False, "correspondence", "impl=%s model=%s" % (a[:200], b[:200]))
 
     # ---- P_impl on the real importer -------------------------------------------------------------------------------------
     inv_ops, inv_cases = [], []
@@ -1264,13 +1313,31 @@ def cli(ctx, res, rng, cases):
     except Exception:
         cppcheckdata = None
     n_ok = 0
+    # checkClang reads the AST from `clang … 2>&1`: diagnostics are interleaved INTO dump lines (`<col:67 warnings generated.`), the
+    # import then bails out with an internal error (observation F35g, docs/C35.md).  The dump invariants are checked with a wrapper
+    # that silences the diagnostics; the plain command is run as well and its bail-outs are counted.
+    wrapper = os.path.join(ctx.tmp, "clang-quiet.sh")
+    open(wrapper, "w").write("#!/bin/sh\nexec %s -w \"$@\"\n" % CLANG)
+    os.chmod(wrapper, 0o755)
     for c in rng.sample(cases, min(len(cases), 16)):
         wd = os.path.join(ctx.tmp, "cli%d" % rng.getrandbits(30))
         os.makedirs(wd)
         fn = src_name(c["lang"])
         open(os.path.join(wd, fn), "w").write(c["text"])
-        rc, out, err = core.sh([ctx.cppcheck, "--clang=" + CLANG, "--dump", "-q", fn], cwd=wd, timeout=300)
+        rc0, out0, err0 = core.sh([ctx.cppcheck, "--clang=" + CLANG, "--dump", "-q", fn], cwd=wd, timeout=300)
+        res.count("cli-plain-exit:%d" % rc0)
+        plain_crash = rc0 < 0 or rc0 >= 128
+        if not os.path.exists(os.path.join(wd, fn + ".dump")):
+            res.count("cli-plain-bailout:" + ("interleaved-diagnostics" if "Processing Clang AST dump failed" in err0 + out0 else "other"))
+        else:
+            os.remove(os.path.join(wd, fn + ".dump"))
+        rc, out, err = core.sh([ctx.cppcheck, "--clang=" + wrapper, "--dump", "-q", fn], cwd=wd, timeout=300)
         res.count("cli-exit:%d" % rc)
+        if plain_crash:
+            # crashes only when the diagnostics are mixed into the AST text: F35g; crashes with silent clang too: something else
+            key = "crash-interleaved-diagnostics" if 0 <= rc < 128 else "cli-crash"
+            res.violation("cppcheck --clang=%s --dump terminated abnormally (rc=%d); with diagnostics silenced rc=%d" % (CLANG, rc0, rc),
+                          dict(kind="program", lang=c["lang"], text=c["text"], key=key), concrete=True, key=key)
         if rc < 0 or rc >= 128:
             res.violation("cppcheck --clang --dump terminated abnormally (rc=%d): %s" % (rc, err[-300:]),
                           dict(kind="program", lang=c["lang"], text=c["text"], key="cli-crash"), concrete=True, key="cli-crash")
@@ -1292,7 +1359,8 @@ def cli(ctx, res, rng, cases):
 def replay(ctx, res, rp):
     """re-run one stored program: prints the violations it still shows; returns 1 if the stored class still occurs"""
     exe = ctx.harness("c35")
-    c = dict(lang=rp.get("lang", "c"), text=rp["text"], layout="replay", stress=True, features=[])
+    mode = probe(exe)[0]
+    c = dict(lang=rp.get("lang", "c"), text=rp["text"], layout="replay", stress=True, features=[], mode=mode)
     clang_case(c)
     if not c.get("clang_ok"):
         print("replay: clang rejects the program")
